@@ -33,14 +33,8 @@ MACHINE_LISTS = ['prepare_event', 'before_state_change', 'after_state_change', '
 ST_CODES = {'on_exit': 0, 'on_enter': 1, 'ignore_invalid_triggers': 2, 'final': 3, 'on_final': 4}
 TR_CODES = {'source': 0, 'dest': 1, 'prepare': 2, 'before': 3, 'after': 4}
 
-# signatures of the open findings (known_findings.json)
-SIG_AFTER = 'C14.after_state_change-exported-from-before_state_change'
-SIG_INTERNAL = 'C14.internal-transition-exported-without-dest'
-SIG_FLAG = 'C14.falsy-state-ignore_invalid_triggers-under-truthy-machine-flag'
-SIG_ONFINAL = 'C14.nested-on_final-not-in-state_attributes'
-SIG_ATTR = 'C14.auto-transitions-with-model_attribute-not-recognised'
-SIG_HELPER = 'C14.hsm-on_enter-on_exit-helper-leaves-markup-stale'
-
+# No open finding for C14: every failure is reported without a signature (a return of one of the defects
+# fixed in /repo — known_findings.json, status fixed — is a VIOLATION).
 
 # ---------------------------------------------------------------------------------------------
 # generator
@@ -351,7 +345,6 @@ class Expect(object):
             self._locals(s, path)
         for t in desc['transitions']:
             self.add_transition(t)
-        self.stale_helper = False
 
     def _state(self, s):
         if s['ignore'] != 'unset':
@@ -438,11 +431,8 @@ class Expect(object):
             self.add_transition(mod[1])
         elif k == 'remove_transition':
             self.remove_transition(mod[1], mod[2], mod[3])
-            self.removed = getattr(self, 'removed', set()) | {mod[1]}
         elif k in ('state_cb', 'helper_cb'):
             self.find(mod[2])[mod[1]].append(mod[3])
-            if k == 'helper_cb':
-                self.stale_helper = True
         elif k == 'trans_cb':
             for e in self.trans['']:
                 if e['trigger'] == mod[2]:
@@ -450,16 +440,6 @@ class Expect(object):
 
     def auto_names(self):
         return set(auto_name(self.desc, p) for _s, p in self.walk())
-
-    def dead_triggers(self):
-        """HierarchicalMachine.remove_transition keeps emptied source keys / events (the trigger still counts as
-        defined there: prepare/finalize callbacks run, the result is 'no transition'), the machine rebuilt from
-        the markup has no such husks — remove_transition's business, not the export's.  Triggers touched by
-        remove_transition on a hierarchical machine are therefore not replayed.  (Flat machines drop emptied
-        keys and events; nothing is filtered there.)"""
-        if not self.hier:
-            return set()
-        return set(m[1] for m in self.desc['mods'] if m[0] == 'remove_transition')
 
     def has_internal(self):
         return any(e['dest'] is None for es in self.trans.values() for e in es)
@@ -471,14 +451,6 @@ class Expect(object):
 def mod_is_valid(exp, mod):
     """modifications that the library rejects by design are not part of the property (skipped)"""
     k = mod[0]
-    if exp.hier:
-        # HierarchicalMachine.remove_transition leaves husks (empty event, trigger method deleted from the
-        # models): adding to / removing from / decorating such a trigger again is nesting.py's business
-        gone = getattr(exp, 'removed', set())
-        name = mod[1]['trigger'] if k == 'add_transition' else (mod[1] if k == 'remove_transition' else
-                                                                  (mod[2] if k == 'trans_cb' else None))
-        if name in gone:
-            return False
     if k == 'remove_transition':
         scopes_with = [sc for sc, es in exp.trans.items() if any(e['trigger'] == mod[1] for e in es)]
         # only triggers that (still) exist at machine level, so that flat and nested removal agree with the
@@ -515,10 +487,7 @@ def check_faithful(exp, mk, machine, stage):
         want = desc['machine_cbs'][k]
         got = mk.get(k)
         if got != want:
-            sig = None
-            if k == 'after_state_change' and got == desc['machine_cbs']['before_state_change']:
-                sig = SIG_AFTER
-            bad('faithful.machine-list', {'key': k, 'expected': want, 'markup': got}, sig)
+            bad('faithful.machine-list', {'key': k, 'expected': want, 'markup': got})
     o = desc['opts']
     for k, want in (('queued', o['queued']), ('send_event', o['send_event']), ('auto_transitions', o['auto_transitions']),
                     ('ignore_invalid_triggers', o['ignore_invalid_triggers']), ('model_attribute', o['model_attribute'])):
@@ -539,16 +508,8 @@ def check_faithful(exp, mk, machine, stage):
             path = prefix + s['name']
             for slot in ('on_enter', 'on_exit', 'on_final'):
                 if _lst(e, slot) != s[slot]:
-                    sig = None
-                    if slot == 'on_final' and slot not in e and 'on_final' not in MarkupMachine.state_attributes:
-                        sig = SIG_ONFINAL
-                    elif exp.stale_helper and exp.hier and slot != 'on_final':
-                        got = _lst(e, slot)
-                        missing = [c for c in s[slot] if c not in got]
-                        if got == [c for c in s[slot] if c not in missing] and set(missing) <= _helper_cbs(desc):
-                            sig = SIG_HELPER
                     bad('faithful.state-callbacks', {'state': path, 'slot': slot, 'expected': s[slot],
-                                                     'markup': e.get(slot, '<absent>')}, sig)
+                                                     'markup': e.get(slot, '<absent>')})
             if bool(e.get('final', False)) != s['final']:
                 bad('faithful.state-final', {'state': path, 'expected': s['final'], 'markup': e.get('final', '<absent>')})
             # the entry, read with the machine-level flag exported next to it, must determine the effective flag
@@ -557,9 +518,8 @@ def check_faithful(exp, mk, machine, stage):
             if 'ignore_invalid_triggers' in e and e['ignore_invalid_triggers'] is None:
                 eff_markup = bool(mk.get('ignore_invalid_triggers'))
             if eff_markup != exp.eff_ignore(s):
-                sig = SIG_FLAG if (s['flag'] is False and exp.mflag is True and 'ignore_invalid_triggers' not in e) else None
                 bad('faithful.state-flag', {'state': path, 'state_flag': s['flag'], 'machine_flag': exp.mflag,
-                                            'markup': e.get('ignore_invalid_triggers', '<absent>')}, sig)
+                                            'markup': e.get('ignore_invalid_triggers', '<absent>')})
             if s['children']:
                 if e.get('initial') != s['initial']:
                     bad('faithful.state-initial', {'state': path, 'expected': s['initial'], 'markup': e.get('initial')})
@@ -608,10 +568,6 @@ def check_faithful(exp, mk, machine, stage):
     return out
 
 
-def _helper_cbs(desc):
-    return set(m[3] for m in desc['mods'] if m[0] == 'helper_cb')
-
-
 def strip_ids(mk):
     """model names derived from id(model) differ between any two machines; everything else is compared"""
     mk = json.loads(json.dumps(mk))
@@ -655,71 +611,20 @@ def run_history(machine, history):
     return rec
 
 
-def repaired(mk, exp):
-    """the exported markup with the *known* defects of the export undone (used to keep the behavioural
-    comparison sharp on the cases in which a known finding applies)"""
-    mk = copy.deepcopy(mk)
-    mk['after_state_change'] = list(exp.desc['machine_cbs']['after_state_change'])
-
-    def fix_trans(ts):
-        for t in ts:
-            t.setdefault('dest', None)
-
-    def fix_states(exp_states, entries):
-        for s, e in zip(exp_states, entries):
-            if s['on_final'] and 'on_final' not in e and exp.hier:
-                e['on_final'] = list(s['on_final'])
-            if exp.stale_helper:
-                for slot in ('on_enter', 'on_exit'):
-                    if s[slot]:
-                        e[slot] = list(s[slot])
-            if 'ignore_invalid_triggers' not in e and not s['flag'] and exp.mflag:
-                e['ignore_invalid_triggers'] = s['flag']
-            if s['children']:
-                fix_states(s['children'], e.get('children', []))
-                fix_trans(e.get('transitions', []))
-    fix_states(exp.states, mk.get('states', []))
-    fix_trans(mk.get('transitions', []))
-    if exp.desc['opts']['model_attribute'] != 'state' and not exp.hier and mk.get('auto_transitions'):
-        autos = exp.auto_names()
-        mk['transitions'] = [t for t in mk['transitions'] if t.get('trigger') not in autos]
-    return mk
-
-
-def known_conditions(exp, machine):
-    """structural conditions of the open findings that hold for this case"""
-    c = set()
-    mc = exp.desc['machine_cbs']
-    if mc['after_state_change'] != mc['before_state_change']:
-        c.add(SIG_AFTER)
-    if exp.has_internal():
-        c.add(SIG_INTERNAL)
-    if exp.mflag is True and any(not s['flag'] for s, _p in exp.walk()):
-        c.add(SIG_FLAG)
-    if exp.hier and 'on_final' not in MarkupMachine.state_attributes and any(s['on_final'] for s, _p in exp.walk()):
-        c.add(SIG_ONFINAL)
-    if exp.desc['opts']['model_attribute'] != 'state' and not exp.hier and exp.desc['opts']['auto_transitions']:
-        c.add(SIG_ATTR)
-    return c
-
-
-def check_roundtrip(exp, machine, mk, history, codec=None, extra_conds=()):
+def check_roundtrip(exp, machine, mk, history, codec=None):
     """`Cls(markup=json round trip)`: identical markup, identical reactions.  Returns (failures, info)."""
     out = []
     info = {'rebuilt': False, 'markup_equal': False}
     cls = machine_cls(exp.hier)
-    conds = known_conditions(exp, machine) | set(extra_conds)
 
-    def bad(what, details, sig=None):
-        out.append((what, details, sig))
+    def bad(what, details):
+        out.append((what, details, None))
 
     m2 = None
     try:
         m2 = cls(markup=json.loads(json.dumps(mk)))
     except Exception as e:
-        internal = [t for t in _all_trans(mk) if 'dest' not in t]
-        sig = SIG_INTERNAL if (isinstance(e, TypeError) and 'dest' in str(e) and internal and SIG_INTERNAL in conds) else None
-        bad('roundtrip.import-raises', {'exception': '%s: %s' % (type(e).__name__, e)}, sig)
+        bad('roundtrip.import-raises', {'exception': '%s: %s' % (type(e).__name__, e)})
     if m2 is not None:
         info['rebuilt'] = True
         info['m2'] = m2
@@ -729,49 +634,15 @@ def check_roundtrip(exp, machine, mk, history, codec=None, extra_conds=()):
         d = diff_paths(strip_ids(mk), strip_ids(mk2))
         info['markup_equal'] = not d
         if d:
-            bad('roundtrip.markup-differs', {'differences': [[p, a, b] for p, a, b in d[:6]]},
-                _classify_markup_diff(exp, mk, mk2, d, conds))
-    # behaviour: original vs rebuilt (as exported), and vs rebuilt from the markup with the known defects undone
+            bad('roundtrip.markup-differs', {'differences': [[p, a, b] for p, a, b in d[:6]]})
     rec1 = run_history(machine, history)
     info['record'] = rec1
     if m2 is not None:
         rec2 = run_history(m2, history)
         if rec1 != rec2:
             k = next(i for i, (a, b) in enumerate(zip(rec1, rec2)) if a != b)
-            sig = None
-            behavioural = conds & {SIG_AFTER, SIG_FLAG, SIG_ONFINAL, SIG_HELPER}
-            if behavioural:
-                sig = sorted(behavioural)[0] if len(behavioural) == 1 else _pick_behaviour_sig(rec1[k], rec2[k], exp, behavioural)
-            bad('roundtrip.behaviour-differs', {'step': k, 'original': rec1[k], 'rebuilt': rec2[k]}, sig)
-    if conds:
-        try:
-            m3 = cls(markup=json.loads(json.dumps(repaired(mk, exp))))
-        except Exception as e:
-            bad('roundtrip.import-raises(repaired)', {'exception': '%s: %s' % (type(e).__name__, e)})
-            m3 = None
-        if m3 is not None:
-            # bring the fresh machine's models to where the exported ones were, then compare
-            rec3 = run_history(m3, history)
-            if rec1 != rec3:
-                k = next(i for i, (a, b) in enumerate(zip(rec1, rec3)) if a != b)
-                bad('roundtrip.behaviour-differs(known-defects-undone)',
-                    {'step': k, 'original': rec1[k], 'rebuilt': rec3[k]})
+            bad('roundtrip.behaviour-differs', {'step': k, 'original': rec1[k], 'rebuilt': rec2[k]})
     return out, info
-
-
-def _pick_behaviour_sig(a, b, exp, sigs):
-    names_a = [c[1] for c in a['calls']]
-    names_b = [c[1] for c in b['calls']]
-    mc = exp.desc['machine_cbs']
-    delta = set(names_a) ^ set(names_b)
-    if SIG_AFTER in sigs and delta and delta <= set(mc['after_state_change']) | set(mc['before_state_change']):
-        return SIG_AFTER
-    onf = set(c for s, _p in exp.walk() for c in s['on_final'])
-    if SIG_ONFINAL in sigs and delta and delta <= onf:
-        return SIG_ONFINAL
-    if SIG_FLAG in sigs and a['out'] != b['out']:
-        return SIG_FLAG
-    return sorted(sigs)[0]
 
 
 def _all_trans(mk):
@@ -783,25 +654,6 @@ def _all_trans(mk):
             rec(e.get('children', []))
     rec(mk.get('states', []))
     return out
-
-
-def _classify_markup_diff(exp, mk, mk2, d, conds):
-    """a markup difference is a known finding only if every difference is of that finding's shape"""
-    if SIG_FLAG in conds and all(p.endswith('/ignore_invalid_triggers') and '/states' in p and a == '<absent>' and b is True
-                                 for p, a, b in d):
-        return SIG_FLAG
-    if SIG_ATTR in conds:
-        autos = exp.auto_names()
-        rest1 = [t for t in mk.get('transitions', []) if t.get('trigger') not in autos]
-        rest2 = [t for t in mk2.get('transitions', []) if t.get('trigger') not in autos]
-        a = dict(strip_ids(mk), transitions=rest1)
-        b = dict(strip_ids(mk2), transitions=rest2)
-        dd = diff_paths(a, b)
-        if not dd:
-            return SIG_ATTR
-        if SIG_FLAG in conds and all(p.endswith('/ignore_invalid_triggers') and x == '<absent>' and y is True for p, x, y in dd):
-            return SIG_ATTR
-    return None
 
 
 # ---------------------------------------------------------------------------------------------
